@@ -299,6 +299,12 @@ int sbdf_tm_read(FILE* in, sbdf_tablemetadata** out)
 			goto end;
 		}
 
+		if (column_cnt < 0)
+		{
+			error = SBDF_ERROR_INVALID_SIZE;
+			goto end;
+		}
+
 		t->no_columns = column_cnt;
 		t->column_metadata = calloc(column_cnt, sizeof(void*));
 		if (!t->column_metadata)
@@ -312,7 +318,13 @@ int sbdf_tm_read(FILE* in, sbdf_tablemetadata** out)
 			error = SBDF_ERROR_OUT_OF_MEMORY;
 			goto end;
 		}
-		
+
+		if (metadatacount < 0)
+		{
+			error = SBDF_ERROR_INVALID_SIZE;
+			goto end;
+		}
+
 		metadataname = calloc(metadatacount, sizeof(void*));
 		if (!metadataname)
 		{
